@@ -210,6 +210,16 @@ func (p *Packet) ReadValue(sample int) int {
 // NewData adds data to the packet, and creates the format and shape TLV items to match.
 func (p *Packet) NewData(data interface{}, dims []int16) error {
 	ndim := len(dims)
+	if ndim != 1 || dims[0] <= 0 {
+		// The shape item written below has room for one size, and the decoder rejects
+		// a shape without a positive size.
+		return fmt.Errorf("Packet.NewData requires exactly one positive dimension, got %v", dims)
+	}
+	if v := reflect.ValueOf(data); v.Kind() == reflect.Slice && v.Len() > 0 &&
+		v.Len()*int(v.Type().Elem().Size()) > maxPACKETLENGTH {
+		// Must be tested before the length is squeezed into 16 bits below.
+		return fmt.Errorf("payload of %d values exceeds max packet length of %d", v.Len(), maxPACKETLENGTH)
+	}
 	p.headerLength = 24
 	if p.timestamp != nil {
 		p.headerLength += 16
